@@ -401,7 +401,7 @@ theorem boolean_hashes_nodup (bits : List UInt8) : (hashWriteStaged (.boolean bi
   have hne : hashBool false ≠ hashBool true := by decide
   split <;> split <;> simp [hne]
 
-/-- The padding is the only source of a hash nobody wrote, and it needs a partial last byte: when the
+/-- The padding is the only source of a hash nobody wrote, and it needs an incomplete last byte: when the
     number of values is a multiple of 8, the inserted hashes are exactly those of written values. -/
 theorem boolean_full_bytes_exact (vs : List Bool) (hfull : vs.length % 8 = 0) (h : UInt64)
     (hh : h ∈ hashWriteStaged (.boolean (packBits vs))) : ∃ b ∈ vs, h = hashBool b := by
@@ -443,7 +443,7 @@ theorem boolean_full_bytes_exact (vs : List Bool) (hfull : vs.length % 8 = 0) (h
       exact ⟨true, bitOf byte hb true (hasTrue byte (by simpa using hne)), hh⟩
     · simp at hh
 
-/-- … and with a partial last byte the padding does add `hash(false)`: three `true`s. -/
+/-- … and with an incomplete last byte the padding does add `hash(false)`: three `true`s. -/
 theorem boolean_padding_adds_false :
     hashBool false ∈ hashWriteStaged (BoolBuf.empty.writeValues [true, true, true] 0xAA).data ∧
       false ∉ [true, true, true] := by decide
